@@ -72,6 +72,24 @@ def blame(prog, feeds):
     return "?", prog
 
 
+def _label(s):
+    return s["op"] + (":" + s["kw"]["f"] if isinstance(s.get("kw", {}).get("f"), str) else "")
+
+
+def program_sig(layer, kind, sub, feeds, label=None):
+    """Signature of a program-level violation: failing operator, what produced its first operand, input class."""
+    stmts = sub["stmts"]
+    if label is None:
+        label = _label(stmts[-1]) if stmts else "?"
+    sig = {"layer": layer, "kind": kind, "op": label, "input_class": input_class(sub, feeds)}
+    if stmts:
+        first = (stmts[-1].get("a") or [None])[0]
+        prod = [s for s in stmts[:-1] if s["o"] == first]
+        if prod:
+            sig["after"] = _label(prod[0])
+    return sig
+
+
 def _neutralise(feeds, cls):
     out = []
     changed = False
@@ -168,7 +186,7 @@ def _work_programs(sh, acc):
                 acc.tally("jax_error", d[:90])
                 break
             label, sub = blame(prog, feeds)
-            acc.violation({"layer": "program", "kind": st_, "op": label, "input_class": input_class(sub, feeds)},
+            acc.violation(program_sig("program", st_, sub, feeds, label),
                           {"kind": "program", "prog": sub, "feeds": _feeds_json(feeds)}, d)
             break
 
@@ -459,8 +477,8 @@ def build_module(spec, seed):
     if k == "nnx.Conv":
         return nnx.Conv(2, 3, kernel_size=(spec[1], spec[1]), strides=spec[2], padding=spec[3], kernel_dilation=spec[4], use_bias=spec[5], rngs=nnx.Rngs(seed)), (1, 6, 6, 2)
     if k == "nnx.pool":
-        f = nnx.avg_pool if spec[1] == "avg" else nnx.max_pool
-        return (lambda x: f(x, window_shape=(spec[2], spec[2]), strides=(spec[3], spec[3]), padding=spec[4])), (1, 6, 6, 2)
+        # looked up at call time, as user code does: the converter patches nnx.avg_pool / nnx.max_pool while tracing
+        return (lambda x: getattr(nnx, spec[1] + "_pool")(x, window_shape=(spec[2], spec[2]), strides=(spec[3], spec[3]), padding=spec[4])), (1, 6, 6, 2)
     key = jax.random.PRNGKey(seed)
     if k == "eqx.LayerNorm":
         return eqx.nn.LayerNorm(4, eps=spec[1], use_weight=spec[2], use_bias=spec[3]), (4,)
@@ -677,10 +695,4 @@ def replay(case):
     st_, d, _ = check_program(case["prog"], feeds)
     if st_ in ("ok", "trivial", "rejected", "jax_error"):
         return []
-    ops = case["prog"]["stmts"]
-    label = "?"
-    if ops:
-        s = ops[-1]
-        label = s["op"] + (":" + s["kw"]["f"] if isinstance(s.get("kw", {}).get("f"), str) else "")
-    return [{"sig": {"layer": case.get("layer", "program"), "kind": st_, "op": label, "input_class": input_class(case["prog"], feeds)},
-             "case": case, "detail": d}]
+    return [{"sig": program_sig(case.get("layer", "program"), st_, case["prog"], feeds), "case": case, "detail": d}]
